@@ -198,22 +198,6 @@ Proof.
     exists ts', F. split; [|split; [exact T'|exact A]]. eapply Hhead; [exact R|reflexivity].
 Qed.
 
-(* the re-rooting operations: the node is replaced, through its parent, by a re-built copy *)
-Lemma reroot_node_op (m : nat -> M unit) k cs cs' :
-  (forall ts rs r tid ri T p, nth_error rs r = Some (Some (mk_hnd tid p)) ->
-     nth_error ts tid = Some (mk_slot true ri T) -> get_path T p = Some (Node k cs) ->
-     forall st', runs (reroot r true (Node k cs')) (mk_state ts rs) tt st' -> runs (m r) (mk_state ts rs) tt st') ->
-  node_op m (Node k cs) (Node k cs').
-Proof.
-  intros Hm ts rs r tid ri T pp i Hr HT HG.
-  destruct (get_path_snoc_inv _ _ _ _ HG) as (kd & pre & post & HGp & <-).
-  destruct (reroot_spec ts rs r tid ri T pp kd pre _ post (Node k cs') Hr HT HGp eq_refl)
-    as (ts' & rs' & R & L & T' & S & A).
-  exists ts', rs'. split; [|split; [exact L|split; [|split; [exact S|exact A]]]].
-  - eapply Hm; eauto.
-  - rewrite T'. f_equal. f_equal. symmetry. apply (upd_path_snoc _ _ _ _ _ _ (Node k cs') HGp).
-Qed.
-
 Lemma drop_constraint_spec_gen k cs ts rs r tid ri T p :
   nth_error rs r = Some (Some (mk_hnd tid p)) -> nth_error ts tid = Some (mk_slot true ri T) ->
   get_path T p = Some (Node k cs) ->
